@@ -5,59 +5,60 @@ import (
 	"time"
 )
 
-// ---- fakes (ordinary Go; executed symbolically by the engine and natively on replay) ----
+// ---- fakes (ordinary Go; executed symbolically by the engine and natively on replay). ----
+// Exported so that the harnesses of package server can use them.
 
-type vLogger struct{}
+type VLogger struct{}
 
-func (*vLogger) Trace(string)                  {}
-func (*vLogger) Tracef(string, ...interface{}) {}
-func (*vLogger) Debug(string)                  {}
-func (*vLogger) Debugf(string, ...interface{}) {}
-func (*vLogger) Info(string)                   {}
-func (*vLogger) Infof(string, ...interface{})  {}
-func (*vLogger) Warn(string)                   {}
-func (*vLogger) Warnf(string, ...interface{})  {}
-func (*vLogger) Error(string)                  {}
-func (*vLogger) Errorf(string, ...interface{}) {}
+func (*VLogger) Trace(string)                  {}
+func (*VLogger) Tracef(string, ...interface{}) {}
+func (*VLogger) Debug(string)                  {}
+func (*VLogger) Debugf(string, ...interface{}) {}
+func (*VLogger) Info(string)                   {}
+func (*VLogger) Infof(string, ...interface{})  {}
+func (*VLogger) Warn(string)                   {}
+func (*VLogger) Warnf(string, ...interface{})  {}
+func (*VLogger) Error(string)                  {}
+func (*VLogger) Errorf(string, ...interface{}) {}
 
-// vWrite is one recorded WriteTo call.
-type vWrite struct {
-	p    []byte
-	addr net.Addr
+// VWrite is one recorded WriteTo call.
+type VWrite struct {
+	P    []byte
+	Addr net.Addr
 }
 
-// vPacketConn is a fake net.PacketConn: WriteTo records the call and returns an arbitrary (n, err);
-// ReadFrom delivers scripted datagrams, then net.ErrClosed.
-type vPacketConn struct {
-	name     string
-	local    net.Addr
-	writes   []vWrite
-	closed   int
-	failing  bool // WriteTo may return an error / short count
-	script   []vDatagram
-	readPos  int
-	closeErr error
+type VDatagram struct {
+	Data []byte // the datagram as sent (true size len(Data))
+	From net.Addr
 }
 
-type vDatagram struct {
-	data []byte   // the datagram as sent (true size len(data))
-	from net.Addr
+// VPacketConn is a fake net.PacketConn: WriteTo records the call (and may fail when Failing);
+// ReadFrom delivers scripted datagrams with UDP truncation semantics, then net.ErrClosed.
+type VPacketConn struct {
+	Name     string
+	Local    net.Addr
+	Writes   []VWrite
+	Closed   int
+	Failing  bool
+	Script   []VDatagram
+	ReadPos  int
+	CloseErr error
 }
 
-func (c *vPacketConn) ReadFrom(p []byte) (int, net.Addr, error) {
-	if c.readPos >= len(c.script) {
+func (c *VPacketConn) ReadFrom(p []byte) (int, net.Addr, error) {
+	if c.ReadPos >= len(c.Script) {
 		return 0, nil, net.ErrClosed
 	}
-	d := c.script[c.readPos]
-	c.readPos++
-	n := copy(p, d.data) // UDP semantics: a datagram larger than the buffer is cut to len(p)
-	return n, d.from, nil
+	d := c.Script[c.ReadPos]
+	c.ReadPos++
+	n := copy(p, d.Data) // a datagram larger than the buffer is cut to len(p)
+	return n, d.From, nil
 }
 
-func (c *vPacketConn) WriteTo(p []byte, addr net.Addr) (int, error) {
+func (c *VPacketConn) WriteTo(p []byte, addr net.Addr) (int, error) {
 	cp := append([]byte{}, p...)
-	c.writes = append(c.writes, vWrite{p: cp, addr: addr})
-	if c.failing {
+	c.Writes = append(c.Writes, VWrite{P: cp, Addr: addr})
+	if c.Failing {
 		if vBool() {
 			return 0, net.ErrClosed
 		}
@@ -68,174 +69,179 @@ func (c *vPacketConn) WriteTo(p []byte, addr net.Addr) (int, error) {
 	}
 	return len(p), nil
 }
-func (c *vPacketConn) Close() error {
-	c.closed++
-	return c.closeErr
+func (c *VPacketConn) Close() error {
+	c.Closed++
+	return c.CloseErr
 }
-func (c *vPacketConn) LocalAddr() net.Addr                { return c.local }
-func (c *vPacketConn) SetDeadline(t time.Time) error      { return nil }
-func (c *vPacketConn) SetReadDeadline(t time.Time) error  { return nil }
-func (c *vPacketConn) SetWriteDeadline(t time.Time) error { return nil }
+func (c *VPacketConn) LocalAddr() net.Addr                { return c.Local }
+func (c *VPacketConn) SetDeadline(t time.Time) error      { return nil }
+func (c *VPacketConn) SetReadDeadline(t time.Time) error  { return nil }
+func (c *VPacketConn) SetWriteDeadline(t time.Time) error { return nil }
 
-// vConn is a fake net.Conn (peer TCP connection).
-type vConn struct {
-	remote, local net.Addr
-	closed        int
-	deadlines     int
-}
-
-func (c *vConn) Read(p []byte) (int, error)         { return 0, net.ErrClosed }
-func (c *vConn) Write(p []byte) (int, error)        { return len(p), nil }
-func (c *vConn) Close() error                       { c.closed++; return nil }
-func (c *vConn) LocalAddr() net.Addr                { return c.local }
-func (c *vConn) RemoteAddr() net.Addr               { return c.remote }
-func (c *vConn) SetDeadline(t time.Time) error      { c.deadlines++; return nil }
-func (c *vConn) SetReadDeadline(t time.Time) error  { return nil }
-func (c *vConn) SetWriteDeadline(t time.Time) error { return nil }
-
-// vListener is a fake net.Listener: Accept returns scripted conns, then net.ErrClosed.
-type vListener struct {
-	addr   net.Addr
-	script []net.Conn
-	pos    int
-	closed int
+// VConn is a fake net.Conn (peer TCP connection).
+type VConn struct {
+	Remote, Local net.Addr
+	Closed        int
+	Deadlines     int
 }
 
-func (l *vListener) Accept() (net.Conn, error) {
-	if l.pos >= len(l.script) {
+func (c *VConn) Read(p []byte) (int, error)         { return 0, net.ErrClosed }
+func (c *VConn) Write(p []byte) (int, error)        { return len(p), nil }
+func (c *VConn) Close() error                       { c.Closed++; return nil }
+func (c *VConn) LocalAddr() net.Addr                { return c.Local }
+func (c *VConn) RemoteAddr() net.Addr               { return c.Remote }
+func (c *VConn) SetDeadline(t time.Time) error      { c.Deadlines++; return nil }
+func (c *VConn) SetReadDeadline(t time.Time) error  { return nil }
+func (c *VConn) SetWriteDeadline(t time.Time) error { return nil }
+
+// VListener is a fake net.Listener: Accept returns scripted conns, then net.ErrClosed.
+type VListener struct {
+	Address net.Addr
+	Script  []net.Conn
+	Pos     int
+	Closed  int
+}
+
+func (l *VListener) Accept() (net.Conn, error) {
+	if l.Pos >= len(l.Script) {
 		return nil, net.ErrClosed
 	}
-	c := l.script[l.pos]
-	l.pos++
+	c := l.Script[l.Pos]
+	l.Pos++
 	return c, nil
 }
-func (l *vListener) Close() error   { l.closed++; return nil }
-func (l *vListener) Addr() net.Addr { return l.addr }
+func (l *VListener) Close() error   { l.Closed++; return nil }
+func (l *VListener) Addr() net.Addr { return l.Address }
 
-// vEvents counts lifecycle callbacks.
-type vEvents struct {
-	allocCreated, allocDeleted int
-	permCreated, permDeleted   int
-	chanCreated, chanDeleted   int
+// VEvents counts lifecycle callbacks.
+type VEvents struct {
+	AllocCreated, AllocDeleted int
+	PermCreated, PermDeleted   int
+	ChanCreated, ChanDeleted   int
+	Auth, AuthOK               int
 }
 
-func (ev *vEvents) handler() EventHandler {
+func (ev *VEvents) Handler() EventHandler {
 	return EventHandler{
-		OnAllocationCreated: func(src, dst net.Addr, protocol, userID, realm string, relay net.Addr, port int) {
-			ev.allocCreated++
+		OnAuth: func(src, dst net.Addr, protocol, username, realm, method string, verdict bool) {
+			ev.Auth++
+			if verdict {
+				ev.AuthOK++
+			}
 		},
-		OnAllocationDeleted: func(src, dst net.Addr, protocol, userID, realm string) { ev.allocDeleted++ },
+		OnAllocationCreated: func(src, dst net.Addr, protocol, userID, realm string, relay net.Addr, port int) {
+			ev.AllocCreated++
+		},
+		OnAllocationDeleted: func(src, dst net.Addr, protocol, userID, realm string) { ev.AllocDeleted++ },
 		OnPermissionCreated: func(src, dst net.Addr, protocol, userID, realm string, relay net.Addr, peer net.IP) {
-			ev.permCreated++
+			ev.PermCreated++
 		},
 		OnPermissionDeleted: func(src, dst net.Addr, protocol, userID, realm string, relay net.Addr, peer net.IP) {
-			ev.permDeleted++
+			ev.PermDeleted++
 		},
 		OnChannelCreated: func(src, dst net.Addr, protocol, userID, realm string, relay, peer net.Addr, n uint16) {
-			ev.chanCreated++
+			ev.ChanCreated++
 		},
 		OnChannelDeleted: func(src, dst net.Addr, protocol, userID, realm string, relay, peer net.Addr, n uint16) {
-			ev.chanDeleted++
+			ev.ChanDeleted++
 		},
 	}
 }
 
 // ---- symbolic addresses ----
 
-// vIP returns an arbitrary IP of length 4 or 16 (the choice forks).
-func vIP() net.IP {
+// VIP returns an arbitrary IP of length 4 or 16 (the choice forks).
+func VIP() net.IP {
 	if vBool() {
 		return net.IP(vBytesN(4))
 	}
 	return net.IP(vBytesN(16))
 }
+func VIP4() net.IP            { return net.IP(vBytesN(4)) }
+func VPort() int              { return int(vU16()) }
+func VUDPAddr() *net.UDPAddr  { return &net.UDPAddr{IP: VIP(), Port: VPort()} }
+func VUDPAddr4() *net.UDPAddr { return &net.UDPAddr{IP: VIP4(), Port: VPort()} }
+func VTCPAddr4() *net.TCPAddr { return &net.TCPAddr{IP: VIP4(), Port: VPort()} }
 
-func vIP4() net.IP { return net.IP(vBytesN(4)) }
+func VSameUDP(a, b *net.UDPAddr) bool { return vAnd(a.Port == b.Port, vIPEq(a.IP, b.IP)) }
 
-func vPort() int { return int(vU16()) }
-
-func vUDPAddr() *net.UDPAddr   { return &net.UDPAddr{IP: vIP(), Port: vPort()} }
-func vUDPAddr4() *net.UDPAddr  { return &net.UDPAddr{IP: vIP4(), Port: vPort()} }
-func vTCPAddr4() *net.TCPAddr  { return &net.TCPAddr{IP: vIP4(), Port: vPort()} }
-
-func vSameUDP(a, b *net.UDPAddr) bool { return vAnd(a.Port == b.Port, vIPEq(a.IP, b.IP)) }
-
-// vNewAlloc builds a fresh UDP allocation through the real constructor, with a fake relay socket.
-func vNewAlloc(ev *vEvents) (*Allocation, *vPacketConn, *vPacketConn) {
-	log := &vLogger{}
-	turn := &vPacketConn{name: "turn"}
-	relay := &vPacketConn{name: "relay"}
+// VNewAlloc builds a fresh UDP allocation through the real constructor, with a fake relay socket.
+func VNewAlloc(ev *VEvents) (*Allocation, *VPacketConn, *VPacketConn) {
+	log := &VLogger{}
+	turn := &VPacketConn{Name: "turn"}
+	relay := &VPacketConn{Name: "relay"}
 	h := EventHandler{}
 	if ev != nil {
-		h = ev.handler()
+		h = ev.Handler()
 	}
-	a := NewAllocation(turn, &FiveTuple{SrcAddr: vUDPAddr4(), DstAddr: vUDPAddr4(), Protocol: UDP}, h, log)
+	a := NewAllocation(turn, &FiveTuple{SrcAddr: VUDPAddr4(), DstAddr: VUDPAddr4(), Protocol: UDP}, h, log)
 	a.relayPacketConn = relay
-	a.RelayAddr = vUDPAddr4()
+	a.RelayAddr = VUDPAddr4()
 	a.addressFamily = 0x01
 	a.lifetimeTimer = time.AfterFunc(600*time.Second, func() {})
 	return a, turn, relay
 }
 
-// vMgrEnv is a Manager built by the real constructor over fake sockets.
-type vMgrEnv struct {
-	m         *Manager
-	ev        *vEvents
-	relays    []*vPacketConn // every relay socket handed out by AllocatePacketConn
-	listeners []*vListener
-	conns     []*vConn // every outbound peer connection handed out by AllocateConn
-	failAlloc bool     // AllocatePacketConn/AllocateListener/AllocateConn may fail
-	veto      bool     // permission handler may refuse
-	vetoLog   []net.IP
+// VMgrEnv is a Manager built by the real constructor over fake sockets.
+type VMgrEnv struct {
+	M         *Manager
+	Ev        *VEvents
+	Relays    []*VPacketConn // every relay socket handed out by AllocatePacketConn
+	Listeners []*VListener
+	Conns     []*VConn // every outbound peer connection handed out by AllocateConn
+	FailAlloc bool     // AllocatePacketConn/AllocateListener/AllocateConn may fail
+	Veto      bool     // the permission handler may refuse (arbitrary verdict per call)
+	VetoLog   []net.IP // IPs the permission handler refused
+	RelayPort int      // if non-zero, relay sockets report this port
 }
 
-func vNewManager(failAlloc, veto bool) *vMgrEnv {
-	env := &vMgrEnv{ev: &vEvents{}, failAlloc: failAlloc, veto: veto}
+func VNewManager(failAlloc, veto bool) *VMgrEnv {
+	env := &VMgrEnv{Ev: &VEvents{}, FailAlloc: failAlloc, Veto: veto}
 	cfg := ManagerConfig{
-		LeveledLogger: &vLogger{},
+		LeveledLogger: &VLogger{},
 		AllocatePacketConn: func(c AllocateListenerConfig) (net.PacketConn, net.Addr, error) {
-			if env.failAlloc && vBool() {
+			if env.FailAlloc && vBool() {
 				return nil, nil, errNilRelaySocket
 			}
-			addr := &net.UDPAddr{IP: vIP4(), Port: vPort()}
-			pc := &vPacketConn{name: "relay", local: addr}
-			env.relays = append(env.relays, pc)
+			addr := &net.UDPAddr{IP: VIP4(), Port: VPort()}
+			pc := &VPacketConn{Name: "relay", Local: addr}
+			env.Relays = append(env.Relays, pc)
 			return pc, addr, nil
 		},
 		AllocateListener: func(c AllocateListenerConfig) (net.Listener, net.Addr, error) {
-			if env.failAlloc && vBool() {
+			if env.FailAlloc && vBool() {
 				return nil, nil, errNilRelaySocket
 			}
-			addr := &net.TCPAddr{IP: vIP4(), Port: vPort()}
-			l := &vListener{addr: addr}
-			env.listeners = append(env.listeners, l)
+			addr := &net.TCPAddr{IP: VIP4(), Port: VPort()}
+			l := &VListener{Address: addr}
+			env.Listeners = append(env.Listeners, l)
 			return l, addr, nil
 		},
 		AllocateConn: func(c AllocateConnConfig) (net.Conn, error) {
-			if env.failAlloc && vBool() {
+			if env.FailAlloc && vBool() {
 				return nil, errNilRelaySocket
 			}
-			cn := &vConn{remote: c.RemoteAddr, local: c.LocalAddr}
-			env.conns = append(env.conns, cn)
+			cn := &VConn{Remote: c.RemoteAddr, Local: c.LocalAddr}
+			env.Conns = append(env.Conns, cn)
 			return cn, nil
 		},
-		EventHandler: env.ev.handler(),
+		EventHandler: env.Ev.Handler(),
 	}
 	if veto {
 		cfg.PermissionHandler = func(src net.Addr, peer net.IP) bool {
 			ok := vBool()
 			if !ok {
-				env.vetoLog = append(env.vetoLog, peer)
+				env.VetoLog = append(env.VetoLog, peer)
 			}
 			return ok
 		}
 	}
 	m, err := NewManager(cfg)
 	vAssume(err == nil)
-	env.m = m
+	env.M = m
 	return env
 }
 
-func vFiveTuple() *FiveTuple {
-	return &FiveTuple{SrcAddr: vUDPAddr4(), DstAddr: vUDPAddr4(), Protocol: UDP}
+func VFiveTuple() *FiveTuple {
+	return &FiveTuple{SrcAddr: VUDPAddr4(), DstAddr: VUDPAddr4(), Protocol: UDP}
 }
